@@ -97,7 +97,12 @@ def defedit(concepts, case):
     return defmodel.replay_edit(concepts, case)
 
 
+def fmt(concepts, case):
+    return B.b12(concepts, case)
+
+
 REPLAYERS = {
+    'fmt': fmt,
     'defedit': defedit,
     'determinism': determinism,
     'ctor': ctor,
